@@ -40,9 +40,9 @@ class AssemblyManager(object):
             self._annotate_assembly(assembly)
             self._ref_citations(assembly)
         finally:
-            # whatever happened, give the inputs their own citation indices back
-            for citations, original in reversed(saved):
-                citations[:] = original
+            # whatever happened, give the inputs their own citation qualifiers back
+            for qualifiers, original in reversed(saved):
+                qualifiers["citation"] = original
 
         return assembly
 
@@ -80,14 +80,18 @@ class AssemblyManager(object):
         references = record.annotations.get("references", [])
         for feature in record.features:
             citations = feature.qualifiers.get("citation", [])
-            if citations:
-                saved.append((citations, list(citations)))
-            for i, ref in enumerate(citations):
+            if not citations:
+                continue
+            # the qualifier is swapped for a list of references (whatever container
+            # it was, e.g. a tuple) and handed back untouched by `assemble`
+            saved.append((feature.qualifiers, citations))
+            feature.qualifiers["citation"] = dereferenced = []
+            for ref in citations:
                 match = self._CITATION_RX.match(ref)
                 if match is None:
                     raise ValueError("invalid citation: '{}'".format(ref))
                 ref_index = int(match.group(1)) - 1
-                citations[i] = references[ref_index]
+                dereferenced.append(references[ref_index])
 
     def _ref_citations(self, record):
         references = record.annotations.setdefault("references", [])
